@@ -6,7 +6,7 @@ from tools import common as C, wire, oracle as O
 
 LEAN_MODULES = ["SCP.C02", "SCP.Lex"]
 THEOREMS = ["SCP.C02." + t for t in "parse_eval post_stable line_eval_partial adjacent_add neg_value_rat pos_value_rat div_value_rat".split()] + \
-    ["SC.Spec.Sum.parseExpr_toks", "SC.Spec.Sum.exec_ast", "SCP.Lex.lex_render", "SCP.Lex.lex_spacing_irrelevant", "SCP.Lex.tree_line_eval"]
+    ["SC.Spec.Sum.parseExpr_toks", "SC.Spec.Sum.exec_ast", "SCP.Lex.lex_render", "SCP.Lex.lex_spacing_irrelevant", "SCP.Lex.tree_line_eval", "SCP.Lex.comment_irrelevant"]
 RULE = ("random stratified expression trees (depth <= 12, literals: integers, fractions, attached signs, k/M/G/T/P/Z/Y suffixes, "
         "detached sign prefixes on literals and parentheses) rendered with random spacing (0-3 blanks per gap), adjacency sums, "
         "the same as right-hand side of an assignment; thorough: additionally ALL trees with <= 4 operators over a 3-literal pool x "
@@ -301,6 +301,8 @@ def lexer_tie(ctx, texts):
     lines = [t for t in texts if not re.search(r"[A-Za-z=]", t)][:ctx.n(1200, 20000)]
     for _ in range(ctx.n(1500, 30000)):
         lines.append("".join(rng.choice(ALPHA_A) for _ in range(rng.randint(1, 24))))
+    # a comment behind the line (SCP.Lex.comment_irrelevant): hostile comment texts
+    lines = [t + rng.choice(["", "", " # note", "#1+1", " # may 5 $3 [NUMBER:1] = x", "  ## 2 * 3", " #"]) for t in lines]
     ops, req, idx = [], [], []
     for (dec, thou) in CONVS:
         ops.append({"op": "cfg", "dec": dec, "thou": thou})
